@@ -1031,6 +1031,31 @@ def gen_lists(repo):
     out += 'def ssThresholdNum : Nat := %d\ndef ssThresholdDen : Nat := %d\n\n' % (int(num + den), 10 ** len(den))
     return out
 
+def gen_convert(repo):
+    f = 'src/change_components_type.rs'
+    src = read(repo, f)
+    m = re.search(r'#\[cfg\(not\(feature = "only_u8x4"\)\)\]\s*match src_pixel_type \{(.*?)\n    \}\n', src, re.S)
+    if not m:
+        raise TranslationError("change_type_of_pixel_components dispatch not found")
+    rows = []
+    for a in re.finditer(r'PixelType::(\w+) => map_dst!\(\s*(\w+),\s*dst_pixel_type,(.*?)\n        \),', m.group(1), re.S):
+        srcn, srct, body = a.group(1), a.group(2), a.group(3)
+        if srcn != srct:
+            raise TranslationError("dispatch arm %s uses source type %s" % (srcn, srct))
+        dsts = re.findall(r'\(PT::(\w+), (\w+)\)', body)
+        for d1, d2 in dsts:
+            if d1 != d2:
+                raise TranslationError("dispatch %s -> %s uses type %s" % (srcn, d1, d2))
+        rows.append((srcn, [d for d, _ in dsts]))
+    if '_ => Err(MappingError::UnsupportedCombinationOfImageTypes)' not in src:
+        raise TranslationError("map_dst! lost its rejecting default arm")
+    if not re.search(r'if src_image\.width\(\) != dst_image\.width\(\) \|\| src_image\.height\(\) != dst_image\.height\(\) \{\s*return Err\(DifferentDimensionsError\);', src):
+        raise TranslationError("change_type_of_pixel_components_typed lost its dimension check")
+    out = '/-- %s: supported (source, destinations) pairs of change_type_of_pixel_components; everything else is rejected -/\n' % f
+    out += 'def convertPairs : List (String × List String) := [\n%s]\n\n' % ',\n'.join(
+        '  ("%s", %s)' % (s_, str(d).replace("'", '"')) for s_, d in rows)
+    return out
+
 def gen_sizes(repo):
     """Buffer-size expressions of the image constructors."""
     out = ''
@@ -1067,6 +1092,7 @@ GENERATORS = [
     ('Pixels', gen_pixels),
     ('Lists', gen_lists),
     ('Sizes', gen_sizes),
+    ('Convert', gen_convert),
 ]
 
 def write_if_changed(path, content):
